@@ -47,7 +47,7 @@ def cr_case(draw, tier="quick"):
     V = draw(st.sampled_from(SPECIAL_V[d])) if (special and d > 1) else draw(C.hpoint(d, 6))
     return {"form": form, "d": d, "A": draw(C.hpoint(d, 6)), "B": draw(C.hpoint(d, 6)), "V": V, "W": draw(C.hpoint(d, 6)), "pars": pars,
             "m": draw(Z.params(9)), "order": draw(st.sampled_from(sorted(ORDERS))), "transform": draw(st.booleans()),
-            "coll": draw(st.sampled_from([0, 0, 2])),
+            "coll": draw(st.sampled_from([0, 0, 0, 2, 2, "8x8", "2x5x7", "70", "1x64"])),
             "ipars": [[draw(st.integers(-2, 2)), draw(st.integers(-2, 2))] for _ in range(4)] if draw(st.sampled_from([False, False, True])) else None}
 
 
@@ -96,10 +96,28 @@ def build_config(c):
     raise KeyError(form)
 
 
-def stack(objs):
-    """two-element collection [x, x'] built from a single object (second element rescaled)"""
+def coll_shape(coll):
+    if coll in (0, 2):
+        return (2,) if coll else ()
+    if coll not in ("8x8", "2x5x7", "70", "1x64"):
+        raise Skip("malformed collection shape")
+    return tuple(int(x) for x in coll.split("x"))
+
+
+def stack(objs, shape=(2,)):
+    """collection of the given shape built from a single object (other representatives of it: factors 1, -2, 0.5, 3 in turn)"""
     cls = {G.Point: G.PointCollection, G.Line: G.LineCollection, G.Plane: G.PlaneCollection}[type(objs)]
-    return cls(np.stack([objs.array, objs.array * -2.0]))
+    size = int(np.prod(shape))
+    fac = np.array([1.0, -2.0, 0.5, 3.0])[np.arange(size) % 4]
+    base = objs.array
+    if size > 2:
+        # the collinearity / concurrency tests compare determinants with an absolute tolerance and large batches use a less
+        # accurate closed form: keep the coordinates of the (possibly transformed) object at magnitude one (exact power of two)
+        from .c01 import pow2_normalise
+
+        base = pow2_normalise(base)
+    a = base[None] * fac.reshape((size,) + (1,) * base.ndim)
+    return cls(a.reshape(shape + objs.array.shape))
 
 
 def run_cr(c):
@@ -115,16 +133,21 @@ def run_cr(c):
             t = Transformation(Z.int_matrix(c["m"], c["d"] + 1))
         args = [t * a for a in args]
         kw = {k: t * v for k, v in kw.items()}
+    shape = coll_shape(c["coll"])
     if c["coll"]:
-        args = [stack(a) if i % 2 == 0 else a for i, a in enumerate(args)]
+        args = [stack(a, shape) if i % 2 == 0 else a for i, a in enumerate(args)]
     num, den = cr_exact(pars)
-    site = f"crossratio:{form}" + (":transformed" if c["transform"] else "") + (":coll" if c["coll"] else "")
+    site = f"crossratio:{form}" + (":transformed" if c["transform"] else "") + (":coll" if c["coll"] else "") + (">=64" if isinstance(c["coll"], str) else "")
     r, f = call(site, lambda: crossratio(*args, **kw))
     if f:
         return [f]
     ck = Checker()
     vals = np.atleast_1d(np.asarray(r)).ravel()
-    ck.check(len(vals) == (2 if c["coll"] else 1), site + ":shape", np.shape(r))
+    ck.check(np.shape(r) == shape, site + ":shape", (np.shape(r), shape))
+    if len(vals) > 2:
+        # the same four objects at every position
+        ck.check(np.allclose(vals, vals[0], rtol=1e-6, atol=1e-9, equal_nan=True), site + ":same-value-at-every-position", C.short(vals.tolist()))
+        vals = vals[:1]
     for v in vals:
         ck.check(C.p1_eq(complex(v), (X.to_complex(num), X.to_complex(den)), 1e-6), site + ":value", (complex(v), (str(num), str(den)), c["order"]))
     return ck.result()
@@ -143,6 +166,8 @@ def cr_labels(c):
         out.append("endpoint-parameter")
     if c["transform"]:
         out.append("transformed")
+    if isinstance(c["coll"], str):
+        out.append("collection>=64" + ("-several-axes" if "x" in c["coll"] else ""))
     if c.get("ipars") and c["form"] in ("points1", "points2", "points3", "from_point2") and any(x[0] or x[1] for x in c["ipars"]):
         out.append("complex-parameters")
     return out
@@ -266,7 +291,7 @@ LAWS = [
     Law("crossratio", lambda tier: cr_case(tier), run_cr, cr_nontrivial, cr_labels, {"quick": 3000, "thorough": 60000},
         "closed-form value for every form (points 1D/2D/3D, concurrent lines 2D/3D, from_point, coaxial planes), argument orders "
         "abcd/badc/cdab/abdc/acbd (the symmetry relations), invariance under a projective map", shard=400,
-        mandatory=("special-vertex", "endpoint-parameter", "transformed", "lines2", "planes3", "points1", "complex-parameters")),
+        mandatory=("special-vertex", "endpoint-parameter", "transformed", "lines2", "planes3", "points1", "complex-parameters", "collection>=64-several-axes")),
     Law("crossratio_clustered_1d", lambda tier: cluster_case(tier), run_cluster, lambda c: abs(c["N"]) >= 1000, lambda c: [f"N={c['N']}"], {"quick": 400, "thorough": 5000},
         "four integer points N+o_i of P^1 (|N| up to 1e6, exact determinants): value depends on the offsets only", shard=400),
     Law("harmonic_set", lambda tier: hs_case(tier), run_hs, lambda c: True, lambda c: [f"d{c['d']}", "coll" if c["coll"] else "single"],
